@@ -389,12 +389,13 @@ func (ti *TermInterp) walk(fr *termFrame, b, pred *ssa.BasicBlock, p *termPath, 
 				np = p.clone()
 				nfr = fr.clone()
 			}
-			np.condT = append(np.condT, ctT)
-			np.condN = append(np.condN, i != 0)
-			if i == 0 {
-				np.cond = append(np.cond, ct)
+			nt, nn := normCondTerm(ctT, i != 0)
+			np.condT = append(np.condT, nt)
+			np.condN = append(np.condN, nn)
+			if !nn {
+				np.cond = append(np.cond, nt.String())
 			} else {
-				np.cond = append(np.cond, "!"+ct)
+				np.cond = append(np.cond, "!"+nt.String())
 			}
 			ti.walk(nfr, s, b, np, depth, done)
 		}
@@ -410,14 +411,51 @@ func (ti *TermInterp) walk(fr *termFrame, b, pred *ssa.BasicBlock, p *termPath, 
 }
 
 var complOp = map[string]string{"==": "!=", "!=": "==", "<": ">=", ">=": "<", ">": "<=", "<=": ">"}
+var flipOp = map[string]string{"==": "==", "!=": "!=", "<": ">", ">": "<", "<=": ">=", ">=": "<="}
+
+// normCondTerm records a branch condition in one form: a comparison taken on its false edge is the
+// complementary comparison; a constant operand stands on the right; between two non-constant operands the
+// relation is < or <= (a > b is b < a), and == / != order their operands by rendering.
+// NormCond is normCondTerm for callers outside the package.
+func NormCond(t *Term, neg bool) (*Term, bool) { return normCondTerm(t, neg) }
+
+func normCondTerm(t *Term, neg bool) (*Term, bool) {
+	if _, isCmp := complOp[t.Op]; !isCmp || len(t.Args) != 2 {
+		return t, neg
+	}
+	op, a, b := t.Op, t.Args[0], t.Args[1]
+	if neg {
+		op, neg = complOp[op], false
+	}
+	isC := func(x *Term) bool { return strings.HasPrefix(x.Op, "const:") || x.Op == "nil" }
+	swap := false
+	switch {
+	case isC(a) && !isC(b):
+		swap = true
+	case !isC(a) && !isC(b):
+		switch op {
+		case ">", ">=":
+			swap = true
+		case "==", "!=":
+			swap = b.String() < a.String()
+		}
+	}
+	if swap {
+		op, a, b = flipOp[op], b, a
+	}
+	return &Term{Op: op, Args: []*Term{a, b}}, neg
+}
 
 // contradicts: the path already holds the opposite of (neg ? !c : c). Terms are
 // pure functions of the inputs and of uniquely named call results, so an equal
 // term has an equal value.
 func (p *termPath) contradicts(c *Term, cs string, neg bool) bool {
+	nc, nneg := normCondTerm(c, neg)
+	c, cs, neg = nc, nc.String(), nneg
 	alt := ""
 	if co, ok := complOp[c.Op]; ok && len(c.Args) == 2 {
-		alt = (&Term{Op: co, Args: c.Args}).String()
+		at, _ := normCondTerm(&Term{Op: co, Args: c.Args}, false)
+		alt = at.String()
 	}
 	for i, t := range p.cond {
 		tn := p.condN[i]
@@ -1190,9 +1228,13 @@ func FindSub(pat, t *Term, binds map[string]*Term) *Term {
 
 // HasCond reports whether the path condition contains the given term (modulo commutativity) with the given polarity.
 func (pr *PathResult) HasCond(t *Term, negated bool, comm map[string]bool) bool {
+	// stored conditions are in the normal form of normCondTerm; so is the query (operands first made
+	// canonical for the commutative operators, so that both sides order == / != the same way)
+	t, negated = normCondTerm(NormalizeComm(t, comm), negated)
 	want := NormalizeComm(t, comm).String()
 	for i, c := range pr.CondT {
-		if pr.CondNeg[i] == negated && NormalizeComm(c, comm).String() == want {
+		nc, nn := normCondTerm(NormalizeComm(c, comm), pr.CondNeg[i])
+		if nn == negated && NormalizeComm(nc, comm).String() == want {
 			return true
 		}
 	}
